@@ -1,24 +1,38 @@
+def _leaked(seg, upto):
+    """pods whose PostBind arrived after the informer deleted them and that were not re-added since (stale bound entry)"""
+    state, leaked = {}, set()
+    for x in seg[1:upto]:
+        p, op = x.get("pod"), x.get("op")
+        if op == "podDelete":
+            state[p] = "deleted"
+        elif op == "podSet":
+            state[p] = "present"
+        elif op == "postBind" and state.get(p) == "deleted":
+            leaked.add(p)
+    return leaked
+
+
 def sig(fl):
-    """classify a rejected event by the history of its pod (diagnostic label + known-finding key)"""
+    """classify a rejected event (diagnostic label + known-finding key; the verdict was TLC's)"""
     e = fl["event"]
     i = fl["fail_index"]
+    seg = fl["segment"]
     p = e.get("pod")
-    hist = [x["op"] for x in fl["segment"][1:i] if x.get("pod") == p]
-    # PostBind (binding goroutine) delivered after the informer already deleted the pod, no re-add in between
-    leaked = False
-    state = None
-    for op in hist:
-        if op == "podDelete":
-            state = "deleted"
-        elif op == "podSet":
-            state = "present" if not leaked else state
-            if state == "deleted":
-                state = "present"
-        elif op == "postBind" and state == "deleted":
-            leaked = True
+    leaked = _leaked(seg, i)
     kind = "other"
-    if leaked:
+    if e.get("op") == "podSet" and p in leaked:
+        # the re-created pod is reported bound
         kind = "postBind-after-informer-delete-leaves-stale-bound-entry"
+    elif e.get("op") == "permit" and e.get("result") == "Success":
+        # a release that counted a stale bound entry of the same group (waiting-and-running policy)
+        gang_of, cfg = seg[0].get("gangOf", {}), seg[0].get("cfg", {})
+        group = set(cfg.get(gang_of.get(p), {}).get("group", []))
+        obs = e.get("obs", {})
+        for q in leaked:
+            g = gang_of.get(q)
+            if g in group and cfg[g]["policy"] == "waitrun" and q in obs.get(g, {}).get("bound", []) \
+                    and q not in obs.get(g, {}).get("children", []):
+                kind = "postBind-after-informer-delete-leaves-stale-bound-entry"
     return "op=%s kind=%s" % (e.get("op"), kind)
 
 
